@@ -40,7 +40,7 @@ DocTyped(txt) ==
   CASE txt \in {"true", "TRUE"} -> Sc("b:true")
     [] txt \in {"false", "False"} -> Sc("b:false")
     [] txt \in {"null", "NULL"} -> Null
-    [] txt \in {"0", "1", "7", "-3", "12"} -> Sc("i:" \o txt)
+    [] txt \in {"0", "1", "2", "7", "-3", "12"} -> Sc("i:" \o txt)
     [] OTHER -> Sc("s:" \o txt)
 
 (* ----- PROPERTY-SHAPED ----------------------------------------------------- *)
@@ -173,51 +173,4 @@ ParseLoop(f, ts) ==
   ELSE ParseLoop(e.data, e.rest)
 CodeParseInto(toks, base) == ParseLoop(base, toks)
 
-(* ----- the enumerated grammar ----------------------------------------------- *)
-\* key names as chunk sequences
-Names1 == << <<"a">>, <<"b">>, <<"a", EscDot, "b">> >>
-Names2 == << <<"a">>, <<"b">> >>
-Idx    == <<0, 1>>
-IdxTok(i) == "[" \o ToString(i) \o "]"
-
-\* paths: [toks, path]
-PathsOf ==
-  LET k1 == {[toks |-> Names1[n], path |-> <<PK(TxtOf(Names1[n]))>>] : n \in DOMAIN Names1}
-      addK(S) == {[toks |-> p.toks \o <<".">> \o Names2[n], path |-> Append(p.path, PK(TxtOf(Names2[n])))] : p \in S, n \in DOMAIN Names2}
-      addI(S) == {[toks |-> Append(p.toks, IdxTok(Idx[n])), path |-> Append(p.path, PI(Idx[n]))] : p \in S, n \in DOMAIN Idx}
-  IN k1 \cup addK(k1) \cup addI(k1) \cup addI(addK(k1)) \cup addK(addI(k1)) \cup addI(addI(k1))
-
-\* scalar literals as chunk sequences, lists of them
-Scalars == << <<"x">>, <<"1">>, <<"0">>, <<"007">>, <<"true">>, <<"False">>, <<"null">>, <<>>, <<"x", EscComma, "y">>,
-              <<"-3">>, <<"1.5">>, <<"a", EscDot, "b">> >>
-ValsOf ==
-  {[toks |-> Scalars[n], val |-> DocTyped(TxtOf(Scalars[n]))] : n \in DOMAIN Scalars}
-  \cup {[toks |-> <<"{">> \o Scalars[n] \o <<"}">>, val |-> Li(<<DocTyped(TxtOf(Scalars[n]))>>)] : n \in {1, 7}}
-  \cup {[toks |-> <<"{">> \o Scalars[n] \o <<",">> \o Scalars[m] \o <<"}">>,
-         val |-> Li(<<DocTyped(TxtOf(Scalars[n])), DocTyped(TxtOf(Scalars[m]))>>)] : n \in {1, 2}, m \in {5, 9}}
-
-Asg1 == {[toks |-> p.toks \o <<"=">> \o v.toks, asgs |-> <<[path |-> p.path, val |-> v.val]>>] : p \in PathsOf, v \in ValsOf}
-\* second assignments (a smaller set) appended after a comma
-Tail2 == {[toks |-> <<"a", "=", "y">>, asgs |-> <<[path |-> <<PK("a")>>, val |-> Sc("s:y")]>>],
-          [toks |-> <<"a", ".", "b", "=", "null">>, asgs |-> <<[path |-> <<PK("a"), PK("b")>>, val |-> Null]>>],
-          [toks |-> <<"a", "[1]", "=", "y">>, asgs |-> <<[path |-> <<PK("a"), PI(1)>>, val |-> Sc("s:y")]>>],
-          [toks |-> <<"b", ".", "a", "=", "2">>, asgs |-> <<[path |-> <<PK("b"), PK("a")>>, val |-> Sc("s:2")]>>]}
-\* a first assignment whose value is empty or a list cannot be followed by ",..." unambiguously
-\* in the documented grammar only when the value is a non-empty scalar or a list
-Asg2 == {[toks |-> x.toks \o <<",">> \o y.toks, asgs |-> x.asgs \o y.asgs] : x \in {z \in Asg1 : z.asgs[1].val # Sc("s:")}, y \in Tail2}
-
-CONSTANT SetPairs      \* TRUE: also two-assignment expressions
-WithText(S) == {[toks |-> e.toks, asgs |-> e.asgs, text |-> Concat(e.toks)] : e \in S}
-SetExprs == SetToSeq(WithText(IF SetPairs THEN Asg1 \cup Asg2 ELSE Asg1))
-
-\* base trees the expression is applied to (as the single -f file)
-SetBases == <<
-  <<>>,
-  [x \in {"a"} |-> Sc("i:1")],
-  [x \in {"a"} |-> Mp([y \in {"a", "b"} |-> Sc("s:old")])],
-  [x \in {"a", "b"} |-> Li(<<Sc("s:o0"), Sc("s:o1")>>)],
-  [x \in {"a"} |-> Li(<<Mp([y \in {"a"} |-> Sc("s:o")])>>)],
-  [x \in {"a"} |-> Li(<<Li(<<Sc("s:n0")>>)>>)],
-  [x \in {"a.b", "b"} |-> Mp([y \in {"b"} |-> Sc("s:keep")])],
-  [x \in {"a"} |-> Null] >>
 =============================================================================
